@@ -94,6 +94,8 @@ def solve_job_shop(
     no_improve = 0
     max_no_improve = 100
 
+    iteration = 0  # stays 0 when max_iter is 0 (the loop body never runs)
+
     for iteration in range(1, max_iter + 1):
         # Try random swap on random machine
         improved = False
